@@ -1,6 +1,7 @@
 import TexcraftModel.Util.Proto
 import TexcraftModel.Model.C06
 import TexcraftModel.Model.C06Spec
+import TexcraftModel.Model.C06Text
 
 /-! Driver for C06. One request per line; every reply is `<model> | <spec>`.
 
@@ -167,8 +168,90 @@ def negGlueSpec (g : Glue) (neg : Bool) : String :=
     s!"ok {showGlue { g with width := -g.width, stretch := -g.stretch, shrink := -g.shrink }} 0"
   else "undef"
 
+/-! ### text requests: `tint|tdim|tglue|tidx <flag> <text>` (`_` = space, `!` = a control sequence;
+flag bit 0: upper-case `A`–`F` have category other) -/
+
+open C06.Text in
+def toks (flag : Nat) (w : String) : List Tok :=
+  w.toList.map fun c =>
+    if c = '_' then .space
+    else if c = '!' then .cs
+    else .ch c (c.isAlpha && !(flag % 2 == 1 && 'A' ≤ c && c ≤ 'F'))
+
+open C06.Text in
+def untoks (t : List Tok) : String :=
+  if t.isEmpty then "~"
+  else String.ofList (t.map fun | .ch c _ => c | .space => '_' | .cs => '!')
+
+open C06.Text in
+def tintM (p : PInt) : String :=
+  match p.const with
+  | some (r, ds) => let m := scanInt p.neg r ds; s!"ok {m.1} {m.2} {untoks p.rest}"
+  | none => s!"ok 0 1 {untoks p.rest}"
+
+open C06.Text in
+def tintS (p : PInt) : String :=
+  match p.const with
+  | some (r, ds) =>
+    match Spec.scanInt p.neg r ds with
+    | .ok v e _ => s!"ok {v} {e} {untoks p.rest}"
+    | .undef => "undef"
+  | none => s!"ok 0 1 {untoks p.rest}"
+
+open C06.Text in
+def tdimM (p : PDimen) : String :=
+  match scanDimen p.neg p.head p.unit with
+  | .ok sc => s!"ok {sc.val} {sc.nerr} {sc.order} {untoks p.rest}"
+  | .panic => "panic"
+
+open C06.Text in
+def tdimS (p : PDimen) : String :=
+  match Spec.scanDimen p.neg p.head p.unit with
+  | .ok v e o => s!"ok {v} {e} {o} {untoks p.rest}"
+  | .undef => "undef"
+
+open C06.Text in
+def tglueM (g : PGlue) : String :=
+  let w := scanGlueWidth g.width.neg g.width.head g.width.unit
+  match scanGlue w (g.plus.map fun d => scanDimen d.neg d.head d.unit) (g.minus.map fun d => scanDimen d.neg d.head d.unit) with
+  | some (gl, e) => s!"ok {showGlue gl} {e} {untoks g.rest}"
+  | none => "panic"
+
+open C06.Text in
+def tglueS (g : PGlue) : String :=
+  let w := Spec.scanGlueWidth g.width.neg g.width.head g.width.unit
+  let r := specGlue w (g.plus.map fun d => Spec.scanDimen d.neg d.head d.unit) (g.minus.map fun d => Spec.scanDimen d.neg d.head d.unit)
+  if r = "undef" then r else s!"{r} {untoks g.rest}"
+
+/-- `\advance\count<index><optional by><integer>`: index, summand, errors, rest. -/
+def tidx (dg : C06.Text.DigitFn) (spec : Bool) (t : List C06.Text.Tok) : String :=
+  let i := C06.Text.parseInt dg t
+  let r := (C06.Text.keyword "by".toList i.rest).getD i.rest
+  let v := C06.Text.parseInt dg r
+  let val (p : C06.Text.PInt) : Option (Int × Nat) :=
+    match p.const with
+    | some (rx, ds) =>
+      if spec then (match Spec.scanInt p.neg rx ds with | .ok v e _ => some (v, e) | .undef => none)
+      else some (scanInt p.neg rx ds)
+    | none => some (0, 1)
+  match val i, val v with
+  | some (n, e1), some (x, e2) => s!"ok {n} {x} {e1 + e2} {untoks v.rest}"
+  | _, _ => "undef"
+
 def handle (line : String) : String :=
   match words line with
+  | ["tint", fl, w] =>
+    let fl := fl.toNat?.getD 0
+    s!"{tintM (C06.Text.parseInt constDigit (toks fl w))} | {tintS (C06.Text.parseInt Spec.constDigit (toks fl w))}"
+  | ["tdim", fl, w] =>
+    let fl := fl.toNat?.getD 0
+    s!"{tdimM (C06.Text.parseDimen constDigit false false (toks fl w))} | {tdimS (C06.Text.parseDimen Spec.constDigit false false (toks fl w))}"
+  | ["tglue", fl, w] =>
+    let fl := fl.toNat?.getD 0
+    s!"{tglueM (C06.Text.parseGlue constDigit false (toks fl w))} | {tglueS (C06.Text.parseGlue Spec.constDigit false (toks fl w))}"
+  | ["tidx", fl, w] =>
+    let fl := fl.toNat?.getD 0
+    s!"{tidx constDigit false (toks fl w)} | {tidx Spec.constDigit true (toks fl w)}"
   | ["ps", s] =>
     match parseInt? s with
     | some s => psOne s
